@@ -30,6 +30,8 @@ def run(ck):
 def replay(rp):
     if 'warm_round' in rp.get('input', {}):
         return wk.warm_replay(rp['input'])
+    if 'copied_simulator' in rp.get('input', {}):
+        return wk.copied_replay(rp['input'], oracle)
     k = wk.from_description(rp['input'])
     try:
         w = wk.run_case(k)
